@@ -218,7 +218,7 @@ func checkC17(c *Ctx, r *Report) {
 			n := describeCall(cc).Name
 			if n == "ExtractModelName" || n == "TransformRequest" || n == "tryPassthrough" || n == "executeTranslationRequest" {
 				ok := false
-				for _, cf := range condFacts(in.Block()) {
+				for _, cf := range normFacts(condFacts(in.Block())) {
 					if cf.If == guard && !cf.True {
 						ok = true
 					}
